@@ -110,21 +110,6 @@ var triggers = []trigger{
 			return c.Cfg.V >= mach.MVP70 && c.Cfg.Cores >= 2 && f.conflictSameLine && isMismatch(class)
 		},
 	},
-	{
-		// MVP-7.1/8 with two or more cores: two memory accesses in flight on
-		// different cache controllers (also one of them on the wrong path) can
-		// deadlock on the directory / shared L3 or hit "invalid state"; the
-		// eviction-avoidance of 7.1 and the L3 layer built on it are the least
-		// finished parts.
-		id: "KF-W6", props: wmProps,
-		match: func(c *core.Case, f *features, class string) bool {
-			n := f.loads + f.stores
-			if f.shadowHasMem {
-				n++
-			}
-			return (c.Cfg.V == mach.MVP80 || c.Cfg.V == mach.MVP71) && c.Cfg.Cores >= 2 && n >= 2
-		},
-	},
 }
 
 // matchTrigger returns the id of the first OPEN known finding of property prop
